@@ -7,8 +7,10 @@ C06-F1 (A2/A3 typestate "derived data is fresh"): objects R = receivers(+count),
         A router whose output may be multi-direction uses the top-down (Kahn) order.
 C06-F2 (A4) donors_count is reset before donors are registered (shared with C09-P2), and the
         routers register the donor of each receiver exactly once (C04-S2 / C05-M1).
-Not decided: that the orders are permutations / topological / level-wise on arbitrary graphs
-(algorithm correctness over graph values).
+C06-F3 (A5, bounded) the traversal algorithms are interpreted on every acyclic flow graph of <= 3
+        (quick) / 4 (thorough) nodes -- they only look at the graph shape, never at values -- and
+        their outputs are checked against the property's three conditions.
+Not decided: the same conditions on graphs with more nodes than the bound (no inductive argument).
 """
 from ..effects import Effects, FnAnalysis, fields_of, path_str
 from ..flow import Walker, State
@@ -206,6 +208,177 @@ def order_rule(db, eff, chk, uname, rid, only_op=None):
         raise AnalysisBroken("%s: no graph-updating operator found in %s" % (rid, uname))
 
 
+# ------------------------------------------------------------------------------------ F3
+
+def small_graphs(n, multi):
+    """flow graphs on nodes 0..n-1 (node ids are storage indices): every node is a root or drains
+    to a non-empty set (single: exactly one) of OTHER nodes; acyclic"""
+    import itertools
+    nodes = list(range(n))
+
+    def options(i):
+        out = [()]
+        others = [j for j in nodes if j != i]
+        for k in range(1, (len(others) if multi else 1) + 1):
+            for sub in itertools.combinations(others, k):
+                out.append(sub)
+        return out
+    for combo in itertools.product(*[options(i) for i in nodes]):
+        # acyclicity
+        state = {}
+
+        def cyc(u):
+            if state.get(u) == 1:
+                return True
+            if state.get(u) == 2:
+                return False
+            state[u] = 1
+            for v in combo[u]:
+                if cyc(v):
+                    return True
+            state[u] = 2
+            return False
+        if any(cyc(u) for u in nodes):
+            continue
+        yield combo
+
+
+def traversal_rule(db, chk, uname, nmax):
+    from ..interp import Interp, World, Obj, PyVec, ThrowEx, NOT_HANDLED, ElemRef
+    from .routers import Table
+    fns = {f.name: f for f in db.fns(unit=uname, pred=lambda f: f.cls == model.GRAPH_IMPL and
+                                    f.name.startswith("compute_"))}
+    need = ("compute_donors", "compute_dfs_indices_bottomup", "compute_dfs_indices_topdown",
+            "compute_bfs_indices_bottomup")
+    for k in need:
+        if k not in fns:
+            raise AnalysisBroken("C06-F3: %s not instantiated in %s" % (k, uname))
+
+    class TW(World):
+        def __init__(self, n):
+            self.n = n
+
+        def before_call(self, it, fn, call, callee, frame):
+            if callee.bn.split("::")[-1] == "size":
+                return self.n
+            return NOT_HANDLED
+
+        def external(self, it, fn, call, frame):
+            bn = call.get("bn", "")
+            name = bn.split("::")[-1]
+            args = call.get("a", [])
+            obj = call.get("obj")
+            if bn == "xt::adapt":
+                v = it.rv(it.eval(args[0], frame))
+                shp = it.rv(it.eval(args[1], frame))
+                m = shp[0] if isinstance(shp, list) else shp
+                return PyVec(list(v)[:m])
+            if obj is not None:
+                oref = it.eval(obj, frame)
+                o = it.rv(oref)
+                if isinstance(o, Table):
+                    if name in ("operator()", "flat", "operator[]", "at"):
+                        return ElemRef(o, tuple(it.rv(it.eval(a, frame)) for a in args))
+                    if name == "fill":
+                        o.cells.clear()
+                        o.fills.append((None, it.rv(it.eval(args[0], frame))))
+                        return None
+                if isinstance(o, PyVec) and call.get("cls", "").startswith("xt::"):
+                    if name in ("operator()", "flat", "operator[]"):
+                        i = it.rv(it.eval(args[0], frame))
+                        if not isinstance(i, int) or i < 0 or i >= len(o):
+                            raise ThrowEx(call, "index %r out of range (size %d)" % (i, len(o)), fn.loc(call))
+                        return ElemRef(o, i)
+                    if name in ("begin", "end"):
+                        from ..interp import Iter
+                        return Iter(o, 0 if name == "begin" else len(o), 1)
+                    if name == "operator=":
+                        v = it.rv(it.eval(args[0], frame))
+                        o[:] = list(v)
+                        return oref
+            return NOT_HANDLED
+    n_sc = 0
+    nbad = 0
+    for multi in (False, True):
+        for n in range(1, nmax + 1):
+            for g in small_graphs(n, multi):
+                n_sc += 1
+                R, C, D, DC = Table("m_receivers"), Table("m_receivers_count"), Table("m_donors"), Table("m_donors_count")
+                for i, recs in enumerate(g):
+                    if not recs:
+                        C[(i,)] = 1
+                        R[(i, 0)] = i
+                    else:
+                        C[(i,)] = len(recs)
+                        for j, r in enumerate(recs):
+                            R[(i, j)] = r
+                dfs, bfs = PyVec([-1] * n), PyVec([-1] * n)
+                this = Obj(model.GRAPH_IMPL, {"m_receivers": R, "m_receivers_count": C, "m_donors": D,
+                                               "m_donors_count": DC, "m_dfs_indices": dfs, "m_bfs_indices": bfs,
+                                               "m_bfs_levels": PyVec([-1] * (n + 1)), "m_grid": None})
+                it = Interp(TW(n), max_steps=200000)
+                bad = []
+                try:
+                    if not multi:
+                        it.call_fn(fns["compute_donors"], this, [])
+                    else:
+                        # donors as the multi-direction router registers them (node order)
+                        cnt = {}
+                        for i, recs in enumerate(g):
+                            for r in recs:
+                                D[(r, cnt.get(r, 0))] = i
+                                cnt[r] = cnt.get(r, 0) + 1
+                        for i in range(n):
+                            DC[(i,)] = cnt.get(i, 0)
+                    it.call_fn(fns["compute_dfs_indices_topdown" if multi else "compute_dfs_indices_bottomup"], this, [])
+                    it.call_fn(fns["compute_bfs_indices_bottomup"], this, [])
+                except ThrowEx as ex:
+                    bad.append("threw %s" % ex.text[:70])
+                if not bad:
+                    # donors inverse of receivers (single: computed by compute_donors)
+                    if not multi:
+                        for i in range(n):
+                            want = sorted(j for j in range(n) if g[j] == (i,))
+                            got = sorted(D.get((i, k)) for k in range(DC.get((i,)) if isinstance(DC.get((i,)), int) else 0))
+                            if got != want:
+                                bad.append("donors of %d are %r, inverse of receivers is %r" % (i, got, want))
+                    d = list(this.fields["m_dfs_indices"])
+                    if sorted(d) != list(range(n)):
+                        bad.append("bottom-up order %r is not a permutation" % d)
+                    else:
+                        pos = {v: k for k, v in enumerate(d)}
+                        for i, recs in enumerate(g):
+                            for r in recs:
+                                if pos[r] > pos[i]:
+                                    bad.append("node %d precedes its receiver %d in the bottom-up order %r" % (i, r, d))
+                    b = list(this.fields["m_bfs_indices"])
+                    lv = list(this.fields["m_bfs_levels"])
+                    if sorted(b) != list(range(n)):
+                        bad.append("breadth-first order %r is not a permutation" % b)
+                    elif not lv or lv[0] != 0 or lv[-1] != n or any(x >= y for x, y in zip(lv, lv[1:])):
+                        bad.append("levels %r do not partition the order into non-empty levels" % lv)
+                    else:
+                        level = {}
+                        for k in range(len(lv) - 1):
+                            for v in b[lv[k]:lv[k + 1]]:
+                                level[v] = k
+                        for i, recs in enumerate(g):
+                            for r in recs:
+                                if not level[r] < level[i]:
+                                    bad.append("receiver %d of node %d is not in a strictly earlier level "
+                                               "(levels %r over %r)" % (r, i, lv, b))
+                if bad:
+                    nbad += 1
+                if not bad or nbad <= 6:
+                    chk.ob("C06-F3", "[%s] %s-direction graph %s" % (uname, "multi" if multi else "single",
+                           [list(r) if r else "root" for r in g]), not bad,
+                           where=fns["compute_bfs_indices_bottomup"].ploc,
+                           function="fastscapelib::detail::flow_graph_impl::compute_*",
+                           construct="traversal(%s)" % ("multi" if multi else "single"),
+                           detail="; ".join(bad[:2]), sample=(n_sc % 97 == 1), extra={"unit": uname})
+    return n_sc
+
+
 def run(db, chk):
     eff = Effects(db)
     chk.explanation = (
@@ -221,5 +394,14 @@ def run(db, chk):
     chk.rule("C06-F1", "derived tables are rebuilt after the last write to receivers, donors "
              "first, on every path to every exit; multi-direction routers use the Kahn order",
              min_instances=21)
+    chk.rule("C06-F3", "bounded exhaustive interpretation of compute_donors / compute_dfs_indices_* "
+             "/ compute_bfs_indices_bottomup on EVERY acyclic flow graph of up to %d nodes (single and "
+             "multiple direction): donors = inverse of receivers, bottom-up order = permutation with "
+             "receivers first, breadth-first order = permutation in non-empty levels with receivers in "
+             "strictly earlier levels" % (4 if chk.tier == "thorough" else 3), min_instances=30)
     for uname in sorted(db.units):
         order_rule(db, eff, chk, uname, "C06-F1")
+    n = 0
+    for uname in (sorted(db.units) if chk.tier == "thorough" else ["raster_queen"]):
+        n += traversal_rule(db, chk, uname, 4 if chk.tier == "thorough" else 3)
+    chk.count_scenarios(n, True)
